@@ -39,6 +39,10 @@ Proof. exact spg_alpha_range_nonmonotone. Qed.
 Theorem C05_spg_alpha_in_unit_interval_monotone_partial : forall ds sBs q qMax, ds <= 0 ->
   0 <= @spg_alpha R NumR false ds sBs q qMax <= 1.
 Proof. exact spg_alpha_range_monotone. Qed.
+(* ... and without that hypothesis the monotone rule does produce negative step lengths (finding F12: infeasible iterates) *)
+Theorem C05_monotone_alpha_can_be_negative_refuted :
+  exists ds sBs q qMax, 0 < sBs /\ q <= qMax /\ @spg_alpha R NumR false ds sBs q qMax < 0.
+Proof. exact monotone_alpha_negative. Qed.
 (* NOT PROVED: "every iterate is feasible" as ONE theorem about the whole solver: find_generalized_cauchy_point and the SPG
    loop (qHistory, spectral step) are not modelled; the three theorems above are the pieces of the convex-combination
    argument (Cauchy point = projection; updates = convex combinations; alpha in [0,1]).  In monotone mode alpha >= 0 needs
